@@ -366,7 +366,7 @@ impl Directive {
                 }
             }
             Directive::Else => {
-                next_item = NextItem::EndIf;
+                next_item = NextItem::EndIfBlock;
             }
             Directive::Endif => {}
             Directive::Exit => {
